@@ -1,4 +1,4 @@
-import FluteModel.Lemmas.SchedRR
+import FluteModel.Lemmas.SchedWaitLift
 /-
   C13 - Scheduling: FIFO admission, multiplex bound (strict priority and round robin: see below).
   Interleave window (`open blocks ≤ interleave_blocks`, opened in increasing SBN) is a property of one
@@ -84,12 +84,8 @@ theorem slots_hold_distinct_transferring (cfg : Cfg) (tbl : List Nat) (ops : Lis
     holds a transfer whose next packet is due at `now` (pacing gate open, encoder neither drained nor stopped),
     then `read(now)` returns an FDT packet or a packet of `q` or of a queue visited before `q` - never `None` and
     never a packet of a queue after `q`.  With the configuration sorted by priority (`BTreeMap`): of priority
-    `≤ q.prio`.
-    PARTIAL with respect to the property clause: "ready" objects that are still WAITING (eligible by
-    `should_transfer_now`, a slot of their queue free) are not covered by this theorem (only by the engine's
-    oracle `C13:strict-priority`); the literal clause is moreover false for objects waiting behind the multiplex
-    bound (finding F23). -/
-theorem strict_priority_partial (cfg : Cfg) (tbl : List Nat) (ops : List Op) (pre post : List QSess) (q : QSess)
+    `≤ q.prio`.  (One half of `strict_priority`; the other half is `strict_priority_waiting`.) -/
+theorem strict_priority_in_progress (cfg : Cfg) (tbl : List Nat) (ops : List Op) (pre post : List QSess) (q : QSess)
     (j : Nat) (c : Cur) (f : FileDesc) (now : Nat) (ticks : List (Nat × Nat))
     (hsorted : (cfg.queues.map (fun x => x.1)).Pairwise (fun a b => a < b))
     (hsess : (run (init cfg tbl) ops).sessions = pre ++ q :: post)
@@ -99,6 +95,50 @@ theorem strict_priority_partial (cfg : Cfg) (tbl : List Nat) (ops : List Op) (pr
     ∀ p t i b, (read (run (init cfg tbl) ops) now ticks).2 = Out.pkt p t i b → p ≤ q.prio := by
   obtain ⟨h1, h2⟩ := read_due cfg tbl ops pre post q j c f now ticks hsess hjs hf hg hs hlt
   exact ⟨h1, fun p t i b e => prio_le_of_sorted cfg tbl ops pre post q hsorted hsess p (h2 p t i b e)⟩
+
+/-- Strict priority for WAITING objects, after every operation history: if priority queue `q` has a free slot and
+    `get_next_file_transfer(q.prio)` would start an object now (`findNext`: the first object of the waiting queue
+    that `should_transfer_now` accepts - right priority, published (FullFDT), start time reached, not in transfer,
+    count / carousel gap satisfied), then `read(now)` returns an FDT packet (e.g. the automatic publication of
+    ObjectsBeingTransferred mode) or an object packet of priority `≤ q.prio` - never `None`, never a packet of a
+    lower-priority queue.  The FDT session and the queues polled before `q` cannot take the object away: they only
+    touch objects of their own priority, and a publication only makes more objects eligible. -/
+theorem strict_priority_waiting (cfg : Cfg) (tbl : List Nat) (ops : List Op) (pre post : List QSess) (q : QSess)
+    (j t : Nat) (now : Nat) (ticks : List (Nat × Nat))
+    (hsorted : (cfg.queues.map (fun x => x.1)).Pairwise (fun a b => a < b))
+    (hsess : (run (init cfg tbl) ops).sessions = pre ++ q :: post)
+    (hfree : q.slots[j]? = some none)
+    (hfind : findNext (run (init cfg tbl) ops) q.prio now (run (init cfg tbl) ops).queue = some t) :
+    (read (run (init cfg tbl) ops) now ticks).2 ≠ Out.none ∧
+    ∀ p t i b, (read (run (init cfg tbl) ops) now ticks).2 = Out.pkt p t i b → p ≤ q.prio := by
+  obtain ⟨h1, h2⟩ := read_wait cfg tbl ops pre post q j t now ticks hsorted hsess hfree hfind
+    (fun u _ g hg _ hw => stale_run cfg tbl ops g (getF_mem hg) hw)
+  exact ⟨h1, fun p t i b e => prio_le_of_sorted cfg tbl ops pre post q hsorted hsess p (h2 p t i b e)⟩
+
+/-- `q` has something READY at `now`: a transfer in one of its slots whose next packet is due, or a free slot and a
+    waiting object that `get_next_file_transfer` would start -/
+def Ready (s : State) (q : QSess) (now : Nat) : Prop :=
+  (∃ (j : Nat) (c : Cur) (f : FileDesc), q.slots[j]? = some (some c) ∧ getF s.objs c.key = some f ∧ gateBlocked f now = false ∧
+    c.enc.stopped = false ∧ c.enc.sent < f.nPk) ∨
+  (∃ (j t : Nat), q.slots[j]? = some none ∧ findNext s q.prio now s.queue = some t)
+
+/-- STRICT PRIORITY: after every operation history, while priority queue `q` has something ready (`Ready`: not
+    waiting for its start time, a carousel delay, a pacing tick, a publication - and not behind the multiplex bound),
+    `read` never returns `None` and never a packet of a queue of lower priority (`p ≤ q.prio`, smaller number =
+    higher priority; FDT packets come first, C11).
+    The literal clause of the property is stronger in one point and FALSE there: an eligible object that waits only
+    because every slot of its queue is occupied by pacing transfers is "ready" in the property's words but not
+    `Ready` - lower-priority packets do go out then (finding F23, class `C13:hol-blocked-behind-paced-slot`). -/
+theorem strict_priority (cfg : Cfg) (tbl : List Nat) (ops : List Op) (pre post : List QSess) (q : QSess)
+    (now : Nat) (ticks : List (Nat × Nat))
+    (hsorted : (cfg.queues.map (fun x => x.1)).Pairwise (fun a b => a < b))
+    (hsess : (run (init cfg tbl) ops).sessions = pre ++ q :: post)
+    (hready : Ready (run (init cfg tbl) ops) q now) :
+    (read (run (init cfg tbl) ops) now ticks).2 ≠ Out.none ∧
+    ∀ p t i b, (read (run (init cfg tbl) ops) now ticks).2 = Out.pkt p t i b → p ≤ q.prio := by
+  rcases hready with ⟨j, c, f, h1, h2, h3, h4, h5⟩ | ⟨j, t, h1, h2⟩
+  · exact strict_priority_in_progress cfg tbl ops pre post q j c f now ticks hsorted hsess h1 h2 h3 h4 h5
+  · exact strict_priority_waiting cfg tbl ops pre post q j t now ticks hsorted hsess h1 h2
 
 /-- Round robin inside one priority queue, for one call of `read_priority_queue` (`readQueue`, the function `read`
     runs on every queue, with `steps = number of slots`): let slot `j` hold a transfer `c` in progress whose next
@@ -141,11 +181,19 @@ def hist : List Op := [.add (obj 3), .add (obj 3), .add (obj 3), .publish 5, .re
 example : ((run (init cfg2 [1]) hist).objs.filter (fun f => f.prio == 0 && f.info.transferring)).length = 2 := by decide
 example : (run (init cfg2 [1]) hist).queue = [3] := by decide
 
-/-- non-vacuity of `strict_priority_partial`: queue 0 holds a transfer with packets left, its gate is open -/
+/-- non-vacuity of `strict_priority_in_progress`: queue 0 holds a transfer with packets left, its gate is open -/
 example : ∃ q c f, (run (init cfg2 [1]) hist).sessions = [] ++ q :: [] ∧ q.slots[0]? = some (some c) ∧
     getF (run (init cfg2 [1]) hist).objs c.key = some f ∧ gateBlocked f 5 = false ∧ c.enc.stopped = false ∧
     c.enc.sent < f.nPk := by
   refine ⟨_, _, _, rfl, rfl, rfl, ?_, ?_, ?_⟩ <;> decide
+
+/-- non-vacuity of `strict_priority_waiting`: three objects added and published, nothing started yet: the queue has
+    free slots and `findNext` names the first object -/
+example : ∃ q, (run (init cfg2 [1]) [.add (obj 3), .add (obj 3), .add (obj 3), .publish 5]).sessions = [] ++ q :: [] ∧
+    q.slots[0]? = some none ∧
+    findNext (run (init cfg2 [1]) [.add (obj 3), .add (obj 3), .add (obj 3), .publish 5]) q.prio 5
+      (run (init cfg2 [1]) [.add (obj 3), .add (obj 3), .add (obj 3), .publish 5]).queue = some 1 := by
+  refine ⟨_, rfl, ?_, ?_⟩ <;> decide
 
 /-- non-vacuity of `round_robin_partial`, second alternative: slot 1 (TOI 2) is due, the index points at slot 0
     (TOI 1, also due): the call returns TOI 1's packet and moves the index onto slot 1 -/
